@@ -242,10 +242,11 @@ def load_many(lit: LineIterator) -> Iterator[dict]:
     # making it trivial to load many frames.
     try:
         while True:
-            # Check for and skip empty lines at the end of file
+            # Skip empty lines. They normally only occur at the end of the file, but stopping at
+            # the first one would silently drop any frames after it.
             line = next(lit)
             if line.strip() == "":
-                return
+                continue
             lit.back(line)
             yield load_one(lit)
     except StopIteration:
